@@ -109,7 +109,7 @@ def loss_case(driver, seed, part, i, res, base_times):
     async def caller(c):
         k = 0
         while sim.world.now < t_fault + 1.0 and k < 40:
-            cmd = simlib.make_command(r, ["query", "plain", "twice", "query"][k % 4], c, k, driver)
+            cmd = simlib.make_command(r, ["query", "dtquery" if driver == "tridonic" else "dttwice", "twice", "plain", "dtquery" if driver == "tridonic" else "query"][k % 5], c, k, driver)
             t0 = sim.world.now
             try:
                 outcomes[(c, k)] = ("ok", await sim.driver.send(cmd), cmd, t0, sim.world.now)
@@ -198,6 +198,26 @@ def loss_case(driver, seed, part, i, res, base_times):
             elif in_flight and exceptions and mode != "write":
                 # completed normally although the device vanished mid-send: only possible if all reports had arrived
                 pass
+        # --- a command that needs a device type keeps its ENABLE DEVICE TYPE prefix when it is retried after a reconnection
+        own = [w_ for w_ in wire if w_["origin"] == "own"]
+        dtcmds = {(len(cmd.frame), cmd.frame.as_integer): (cmd.devicetype, bool(cmd.sendtwice)) for (st, val, cmd, t0, t1) in outcomes.values()
+                  if len(cmd.frame) == 16 and cmd.devicetype != 0}
+        for k, w_ in enumerate(own):
+            key = (w_["width"], w_["value"])
+            if key in dtcmds:
+                dtv, tw = dtcmds[key]
+                run = 0
+                j = k - 1
+                while j >= 0 and (own[j]["width"], own[j]["value"]) == key and own[j + 1]["t"] - own[j]["t"] < 0.1:
+                    run += 1
+                    j -= 1
+                if tw and run % 2 == 1:
+                    continue
+                prevw = own[k - 1] if k else None
+                if prevw is None or (prevw["width"], prevw["value"]) != (16, 0xC100 + dtv):
+                    res.violation(f"C17/{driver}/retry-without-device-type-prefix", f"frame {w_['value']:#06x} (device type {dtv}) was transmitted at "
+                                  f"{w_['t']:.4f} without the ENABLE DEVICE TYPE frame in front of it (preceded by {hex(prevw['value']) if prevw else None})", wit)
+                    break
         # --- status events and reconnection attempts, per outage episode
         lose_times = [t_fault] + ([t_fault + restore + 3.3] if second else [])
         back_times = ([t_fault + restore] if restore is not None else []) + ([t_fault + restore + 4.9] if second else [])
@@ -375,7 +395,7 @@ def cancel_case(driver, seed, k, after, res):
 def silence_case(driver, seed, i, res):
     import dali.driver.serial as S
     r = rng(seed, "C17", "silence", driver, i)
-    kind = r.choice(["no-confirm", "no-answer", "dead", "no-second-confirm"])
+    kind = r.choice(["no-confirm", "no-answer", "dead", "no-second-confirm", "mid-frame", "mid-frame"])
     ckind = r.choice(["query", "plain", "twice", "devquery", "dtquery"])
     picker = simlib.Picker(r)
     sim = simlib.Sim(driver, picker)
@@ -395,6 +415,17 @@ def silence_case(driver, seed, i, res):
             dev.answering = False
         elif kind == "dead":
             dev.silent = True
+        elif kind == "mid-frame":
+            # the gateway dies part-way through its next message and stays silent
+            orig_send = dev.send
+            cut = r.randint(1, 4)
+
+            def send_cut(delay, data, orig_send=orig_send):
+                if not dev.silent:
+                    orig_send(delay, bytes(data)[:cut])
+                    dev.silent = True
+            dev.send = send_cut
+            dev.send_whole = lambda delay, data: send_cut(delay, data)
         elif kind == "no-second-confirm":
             orig = dev._sent
             state = {"n": 0}
@@ -414,17 +445,33 @@ def silence_case(driver, seed, i, res):
             log["result"] = ("exc", e)
         log["elapsed"] = sim.world.now - t0
         log["locked_after"] = sim.driver.transaction_lock.locked()
+        if kind == "mid-frame":
+            # while the gateway is still silent a further send must also fail within the documented timeouts
+            cmd1 = simlib.make_command(r, "plain", 2, 2, driver)
+            t0 = sim.world.now
+            try:
+                await sim.driver.send(cmd1)
+                log["second"] = ("ok", sim.world.now - t0)
+            except Exception as e:
+                log["second"] = ("exc", sim.world.now - t0, e)
+            dev.__dict__.pop("send", None)
+            dev.__dict__.pop("send_whole", None)
         # recovery
         dev.confirm = dev.answering = True
         dev.silent = False
         dev.__dict__.pop("_sent", None)
         await asyncio.sleep(2.0)
-        cmd2 = simlib.make_command(r, "query", 2, 5, driver)
-        t1 = sim.world.now
-        try:
-            log["after"] = ("ok", await asyncio.wait_for(sim.driver.send(cmd2), 10.0), cmd2, t1)
-        except Exception as e:
-            log["after"] = ("exc", e, cmd2, t1)
+        # the receiver may still hold the truncated frame: allow it a few frames to resynchronise
+        for attempt in range(1 if kind != "mid-frame" else 4):
+            cmd2 = simlib.make_command(r, "query", 2, 5 + attempt, driver)
+            t1 = sim.world.now
+            try:
+                log["after"] = ("ok", await asyncio.wait_for(sim.driver.send(cmd2), 10.0), cmd2, t1)
+                if check_answer(driver, cmd2, log["after"][1], sim.bus.wire, t_from=t1) is None:
+                    break
+            except Exception as e:
+                log["after"] = ("exc", e, cmd2, t1)
+            await asyncio.sleep(0.5)
         return True
 
     out, stalled = sim.run(main)
@@ -446,8 +493,16 @@ def silence_case(driver, seed, i, res):
             res.violation(f"C17/{driver}/silence-timeout-exceeded", f"send() took {log['elapsed']:.3f} virtual seconds, documented timeouts allow {bound:.3f}", wit)
         if log["locked_after"]:
             res.violation(f"C17/{driver}/lock-held-after-silence", "transaction_lock still held after send() ended", wit)
+        if kind == "mid-frame":
+            sec = log.get("second")
+            if sec is None or sec[1] > t_confirm + t_rx + 0.4:
+                res.violation(f"C17/{driver}/hang-on-silence/mid-frame", f"a send issued while the gateway was silent took {sec and sec[1]} virtual seconds", wit)
         confirm_missing = kind in ("no-confirm", "dead") or (kind == "no-second-confirm" and twice)
-        if confirm_missing:
+        if kind == "mid-frame":
+            confirm_missing = None
+        if confirm_missing is None:
+            pass
+        elif confirm_missing:
             if st != "exc":
                 res.violation(f"C17/{driver}/missing-confirmation-not-reported", f"the gateway never confirmed the transmission but send() returned {val!r}", wit)
         else:
@@ -459,7 +514,11 @@ def silence_case(driver, seed, i, res):
             elif val is not None:
                 res.violation(f"C17/{driver}/silent-answer-wrong", f"{kind}: non-query returned {val!r}", wit)
         a = log.get("after")
-        if a is None or a[0] == "exc":
+        if kind == "mid-frame" and driver == "sci" and (a is None or a[0] == "exc" or check_answer(driver, a[2], a[1], sim.bus.wire, t_from=a[3])):
+            # the SCI protocol has fixed five-byte frames and no start marker: after a truncated frame the receiver stays
+            # misaligned.  The property only demands that sends fail within the timeout with the lock released.
+            res.observe("sci-receiver-stays-misaligned-after-truncated-frame", "no recovery after mid-frame silence")
+        elif a is None or a[0] == "exc":
             res.violation(f"C17/{driver}/no-recovery-after-silence", f"a send after the gateway recovered failed: {a and a[1]!r}", wit)
         else:
             p = check_answer(driver, a[2], a[1], sim.bus.wire, t_from=a[3])
